@@ -21,6 +21,8 @@ import (
 	"time"
 
 	"verifharness/hx"
+
+	"github.com/iotaledger/hive.go/ds/reactive"
 )
 
 // The stress rounds run in a child process of the harness: a broken hand-off protocol can end in a Go *fatal*
@@ -167,6 +169,7 @@ func readLines(p string) []string {
 func runSeqCase(r *hx.Run, sub uint64, ops []string) {
 	r.Case(sub)
 	w := &seqWorld{}
+	var xw *xWorld
 	delivered, subs := 0, 0
 	var rerun []string
 	for i := 0; i < len(ops); i++ {
@@ -187,6 +190,26 @@ func runSeqCase(r *hx.Run, sub uint64, ops []string) {
 		if isLogLine(op) {
 			// a recorded log replayed on its own: the Go oracle and the Lean driver judge the same line
 			r.Line(op, judgeLogLine(r, op))
+
+			continue
+		}
+		if len(f) > 0 && f[0] == "newvarx" {
+			xw = &xWorld{v: reactive.NewVariable[int]()}
+			r.Line(op, "ok")
+
+			continue
+		}
+		if xw != nil {
+			ans := xw.exec(r, op)
+			r.Line(op, ans)
+			if len(f) > 0 {
+				r.Count("op:varx:" + f[0])
+			}
+			if n := len(strings.Fields(ans)); n > 2 && len(f) > 0 && f[0] != "state" {
+				delivered += n - 2
+				r.CountN("varx:variant-events", n-2)
+				subs++
+			}
 
 			continue
 		}
@@ -227,6 +250,11 @@ func runSeqCase(r *hx.Run, sub uint64, ops []string) {
 }
 
 var seqCorpus = [][]string{
+	// every subscription variant and every writer of Variable
+	{"newvarx", "withvalue 3", "once 1", "ctx 1", "set 2", "set 4", "set 3", "read", "derive 2", "feed 1", "underive", "feed 4",
+		"toggle 1", "reset", "unsub 0", "unsub 2", "state"},
+	{"newvarx", "init 3", "once 0", "once 2", "nonempty", "withvalue 1", "ctx 0", "defaultto 2", "set 0", "defaultto 2", "compute 1",
+		"unsub 3", "unsub 3", "unsub 4", "set 4", "state"},
 	// DESIGN.md section 7: Replace({2,3}) on {1,2} with a folding subscriber
 	{"newset 1,2", "sub 0", "replace 2,3", "state"},
 	{"newset 1,2", "sub 1", "replace 1,2", "replace -", "replace 0,4", "state"},
@@ -242,7 +270,8 @@ func main() {
 	r.MaxSamples = 5
 	r.Rule = "sequential: random histories over reactive Set[int] (universe 0..4: add/del/addall/delall/apply/compute/toggle/replace/replace-self/replace-view), " +
 		"Variable[int] (set/compute/defaultto) and Event (trigger/set/ontrigger) with sub/unsub/state; non-trivial = at least one " +
-		"subscription and three delivered notes, distinct by sha256 of the op lines. stress: 4-8 goroutines per round (writers, " +
+		"subscription and three delivered notes, distinct by sha256 of the op lines; newvarx cases: Variable[int] with OnUpdateOnce / WithValue / " +
+		"WithNonEmptyValue / OnUpdateWithContext subscribers, Read, and Set/Compute/DefaultTo/Init/ToggleValue+reset/DeriveValueFrom+teardown. stress: 4-8 goroutines per round (writers, " +
 		"subscribers with/without initial trigger, unsubscribers) on one Variable / Set / Event; non-trivial = a round in which some " +
 		"subscription received a writer's note after its initial one while another goroutine was writing, distinct by sha256 of the logs"
 	if *stressChild {
@@ -268,6 +297,10 @@ func main() {
 	for i := 0; i < n; i++ {
 		rng, sub := r.Rng.Fork()
 		runSeqCase(r, sub, genSeqCase(rng, 28))
+		if i%4 == 0 {
+			rng, sub := r.Rng.Fork()
+			runSeqCase(r, sub, genSeqxCase(rng, 30))
+		}
 	}
 	runStressInChild(r)
 	r.Finish()
